@@ -324,6 +324,7 @@ def run(ctx):
     from ..core import borrow
     from . import c06
     borrow(ctx, "C04", c06.rule_si, ctx.py)
+    borrow(ctx, "C04", c06.rule_derived, ctx.py)      # litre / molar symbols keep their SI meaning: "2 pL" is 2e-15 m3
     borrow(ctx, "C04", c06.rule_keys, ctx.py)
     borrow(ctx, "C04", c06.rule_dimguard, ctx.py)
     borrow(ctx, "C04", c06.rule_convert_args, ctx.py, "C04.ARGS-CONV")
